@@ -10,6 +10,19 @@ def run(ctx, rep):
     numeric.r16f(ctx, rep)
     numeric.r16g(ctx, rep)
     numeric.r16h(ctx, rep)
+    from . import C10, C11
+    sub = type(rep)(rep.prop)
+    C10.r10e(ctx, sub)
+    rep.rule("R16i", "the printed form is a numeric literal for the scanner: C10's R10e (exponent notation only where the "
+             "scanner's number class can read it back — no sign after the first character, so {:e} only for values >= 1) "
+             "re-checked here, since a spelling with a negative exponent is a symbol in program text while string->number "
+             "still reads it.")
+    for o in sub.obs:
+        o.rule = "R16i"
+        o.key = o.key.replace("R10e", "R16i", 1)
+        rep.obs.append(o)
+    C11.r11k(ctx, rep, rule="R16j")
+    rep.rules["R16j"] = "a prefixed literal reaches Number's parser whatever its digits look like: " + rep.rules["R16j"]
     tables.r11c(ctx, rep, rule="R16d")
     rep.obs = [o for o in rep.obs if not (o.rule == "R16d" and "scan_simple_token" in o.key)]
     rep.not_decided += ["float formatting/parsing (std and num behaviour)", "rational reduction",
